@@ -162,9 +162,22 @@ def typegen_modules(run, tg, seed):
             env = {'tagdef': key[0], 'extimp': key[1], 'types': types}
             mods.append({'mid': 'tg%s%d' % (key[0], len(mods)), 'src': 'tg', 'env': env, 'vals': vals,
                          'text': render.render_module('M', env), 'codecs': ALL_CODECS})
-    # spread over the tag defaults
-    mods.sort(key=lambda m: m['mid'][3:] + m['mid'][2])
-    return mods[:nmods]
+    return spread(mods, nmods)
+
+
+def spread(mods, nmods):
+    """Take modules round-robin over the tag defaults (E / I / A TAGS, EXTENSIBILITY IMPLIED or not)."""
+    by = {}
+    for m in mods:
+        by.setdefault((m['env']['tagdef'], m['env']['extimp']), []).append(m)
+    out = []
+    k = 0
+    while len(out) < nmods and any(by.values()):
+        for key in sorted(by):
+            if by[key] and len(out) < nmods:
+                out.append(by[key].pop(0))
+        k += 1
+    return out
 
 
 # ----------------------------------------------------------------------------------------
